@@ -6,7 +6,9 @@ CHECK = {
     "engine": "E2",
     "technique": "explicit-state walk over the positions of the real random generator (save/restore in every state), "
                  "bit-exact comparison of its stream with an independent integer RANLUX over a seed alphabet, and "
-                 "whole runs repeated with the same seed and compared byte for byte",
+                 "whole runs repeated with the same seed and compared byte for byte - the executable started several times "
+                 "AND the simulation object / photon source / re-emission classes used several times inside one process "
+                 "(histories of length 2-3 over the problem alphabet)",
     "level_text": "The generator is a small deterministic state machine (12 lagged 48-bit values, borrow, three indices): "
                   "for every seed of the alphabet every position 0..40 (three refill boundaries) is visited, its restart "
                   "image is compared with the state of an independent integer implementation of ranlxd2, it is saved, "
@@ -14,7 +16,15 @@ CHECK = {
                   "of seed pairs (constructed and restored generators) and must give exactly the fresh generator of b, "
                   "and the first 600 outputs are compared bit for bit "
                   "with the reference (and with GSL's ranlxd2 on the documented seed domain). Whole task-based runs are "
-                  "executed four times per (configuration, seed) and all snapshot files compared. The state space walked "
+                  "executed four times per (configuration, seed) and all snapshot files compared; the alphabet of 10 problems "
+                  "has 1, 2, 3 and 7 sources (equal and unequal luminosities), packet numbers that leave 0, 1, 2 and 6 packets "
+                  "over after rounding, copies of source subgrids, helium with the physical diffuse field, a continuous source, "
+                  "non-cubic boxes. Because state hidden in a process (function-level statics, rand()) is invisible to separate "
+                  "executions, the same problems are also run 3 times inside one process and once after every predecessor of a "
+                  "history alphabet, DistributedPhotonSource is constructed repeatedly for an alphabet of (sources, weights, "
+                  "packet number, grid copies), and every stand-alone consumer of random numbers (56: physical re-emission "
+                  "in 18 states x both overloads, fixed-value re-emission x 3 probabilities, 13 spectra, 4 continuous sources) is replayed with the same seed on the same "
+                  "object, on a second object and after all others (outputs and final generator state bit for bit). The state space walked "
                   "is finite and completely enumerated inside the stated bound, which is why model checking of the state "
                   "machine is the natural level; the whole-run part is exhaustive exploration of a small configuration alphabet.",
     "level_note": "Bound: 337 (quick) / 4 165 (thorough) of the 2^31 seeds with the full walk (600 outputs, save points 0..40), "
@@ -22,18 +32,32 @@ CHECK = {
                   "{constructed, restored} = 10 496 / 20 992 set_seed transitions; 57 024 / 215 424 boundary states injected through the "
                   "restart constructor (alphabet {0,1,2,2^47,2^48-2,2^48-1}, <=2 / <=3 marked positions, both borrows, 12 "
                   "alignments) so that every borrow decision sees exact ties. Nothing is claimed for other seeds beyond the "
-                  "argument in NOTES.md. Whole runs: 6 configurations x 2 (quick) / 3 (thorough) seeds, one thread, on this "
+                  "argument in NOTES.md. Whole runs: 10 configurations x 2 (quick) / 3 (thorough) seeds, one thread, on this "
                   "machine; the HDF5 'Creation time' attribute is the only field excluded from the content comparison, and the "
-                  "byte comparison pins the calendar second with an LD_PRELOAD shim.",
+                  "byte comparison pins the calendar second with an LD_PRELOAD shim. In one process: 10 configurations x 1 / 2 "
+                  "seeds x (3 consecutive runs + 3 / 10 predecessor histories: 2 / all 9 other problems and the same problem with "
+                  "seed+1) = 100 / 480 simulation runs in 50 / 240 child processes, each first run also compared with the "
+                  "executable; DistributedPhotonSource: 3 grid variants (no copies, 2 copies, 4/2/2 copies) x sources "
+                  "{1,2,3,5,7,16} / {1,2,3,4,5,7,8,13,16} x 4 weight patterns x 2 layouts x up to 9 / 13 packet numbers (S, 2S+1, 97S, "
+                  "97S+1, 97S+S-1, 1000, 1009, 4099, 65537, ...) = 1 248 / 2 760 inputs (those that would give an entry zero "
+                  "packets are outside the class's precondition and skipped, counted), 4 constructions each; consumers: 56 x "
+                  "3 / 6 seeds x 4 replays of 3 000 / 20 000 calls. Only repetitions inside one process and one thread are "
+                  "covered, not other drivers (RHD steps) that build the same classes.",
     "quick_deadline": 90,
     "thorough_deadline": 600,
     "parts": [
         {"name": "ranlux", "bin": "c13_ranlux", "share": 1.0},
         {"name": "runs", "bin": "c13_runs", "share": 2.0,
          "needs": [_B + "/plain/CMacIonize", "c13_fixedtime.so"]},
+        {"name": "inproc", "bin": "c13_inproc", "share": 1.5,
+         "needs": [_B + "/plain/CMacIonize"]},
     ],
     "assumptions": [
         "GSL (when installed) is used as a third voice only for seeds 0..2^31-1, its documented domain",
         "whole runs: same machine, same executable, one thread; interval timers and diagnostics files are not snapshots and are not compared",
+        "in-process repetitions: the driver does what CMacIonize.cpp does for --task-based --threads 1 (constructor, initialize, run; "
+        "no log object); its first run is compared with the executable's output for every problem",
+        "between in-process repetitions the C library generators (srand/srandom/srand48) are re-seeded differently: a result that "
+        "depends on them is not a function of parameter file and seed",
     ],
 }
